@@ -90,6 +90,11 @@ def h_tie(rep, rng):
         for sub in g.subsets():
             deps, dev = rng.choice(g.placements(rng, sub))
             cases.append({"lib": lib, "declared": sub, "deps": deps, "dev": dev, "via": "actor", "attr": 'lib = "%s", channel = 2' % lib, "item": item})
+            # impl blocks whose only replies are hidden ones (the hand-over of a self-consuming method, a method in `actor: &Type` notation)
+            for it2 in ("impl A {\n pub fn new() -> Self { todo!() }\n pub fn inc(&mut self) {}\n pub fn demolish(self) {}\n}",
+                        "impl A {\n pub fn new() -> Self { todo!() }\n pub fn inc(&mut self) {}\n pub fn is_open(actor: &A) -> bool { true }\n}",
+                        "impl A {\n pub fn new() -> Self { todo!() }\n pub fn inc(&mut self) {}\n}"):
+                cases.append({"lib": lib, "declared": sub, "deps": deps, "dev": dev, "via": "actor", "attr": 'lib = "%s"' % lib, "item": it2})
             if lib != "smol":
                 cases.append({"lib": lib, "declared": sub, "deps": deps, "dev": dev, "via": "family",
                               "attr": 'lib = "%s", actor(first_name = "U"), actor(first_name = "V")' % lib, "item": item})
@@ -116,9 +121,18 @@ def h_tie(rep, rng):
         rep.count("placement", "deps" if not c["dev"] else ("dev" if not c["deps"] else "split"))
         rep.nontrivial.add(("check", c["lib"], real[0], missing))
         why = oracle_check(c["lib"], c["declared"], real)
+        harmless = False
+        if why is not None and real[0] == "accept" and cls == "TOKENS" and c["via"] != "helper":
+            # accepted without a documented crate: a violation of the property only if the emitted code really refers to that crate
+            try:
+                roots = set(analyse_expansion(fields[0])[0])
+            except Exception:
+                roots = None
+            if roots is not None and not (roots & set(g.ROOT[x] for x in missing)):
+                harmless, why = True, None
         # projection: accept / reject; for a rejection only "names a missing documented crate" (which of several is unspecified)
         agree = real[0] == model[0]
-        rep.oblige(why is None and agree)
+        rep.oblige(why is None and agree and not harmless)
         if i % 211 == 0:
             rep.sample({"lib": c["lib"], "dependencies": c["deps"], "dev-dependencies": c["dev"], "via": c["via"], "real": real[:2], "model": model})
         if why is not None:
